@@ -197,22 +197,24 @@ PLAN = {
         note="network (MainDevice::single_pdu) abstracted as an arbitrary datagram; callers of the wrapped methods not yet under contract",
     ),
     "C12": dict(
-        verus=["eeprom_range", "subdevice_eeprom"], kani=[], level="proof",
+        verus=["eeprom_range", "subdevice_eeprom", "eeprom_items"], kani=[], level="proof",
         claim="EepromRange::{new,skip_ahead_bytes,read_byte,read} proved against the provider's ghost memory for every position, window, buffer length and chunk size "
               "(Verus, unbounded loop invariant): read returns exactly mem[pos..pos+n), n = min(len, window left), never beyond the window; the dependency's read_exact on top of it; "
               "SubDeviceEeprom::start_at (window = length rounded up to a word), size (from word 0x3e), category (walk with termination measure); find_string's body from the count byte "
               "to the raw bytes as one fragment: None iff index >= count, otherwise exactly the bytes stored for that string (offset = sum of the preceding length bytes), refused "
               "as too long only when really longer than the destination (a string of exactly the capacity is delivered); category: Some(range) is the data window (start "
               "right after the 2-word header, length from the header) of a header of the requested type; identity / mailbox_config / general decode exactly the 16 / 10 / 18 "
-              "bytes at word 0x0008 / word 0x0018 / the start of the General category",
+              "bytes at word 0x0008 / word 0x0018 / the start of the General category; CategoryIterator::{next, next_sub_item}: an item is decoded from exactly the next "
+              "PACKED_LEN bytes of the window; pdos: a PDO's bit length is the sum over exactly its num_entries entries (<= 255 each)",
         note="provider (hardware) contract assumed: read_chunk(w) returns mem[2w..2w+k], k in {4,8}; find_string's NUL removal / non-ASCII replacement (iterator adapters) and the "
              "derive-decoded items (sync managers, FMMUs, PDOs, general, identity: wire layouts = C19) are not under a functional contract",
     ),
     "C13": dict(
-        verus=["eeprom_range", "subdevice_eeprom"], kani=[], level="proof",
+        verus=["eeprom_range", "subdevice_eeprom", "eeprom_items"], kani=[], level="proof",
         claim="no overflow / out-of-bounds / panic and termination of EepromRange::{new,skip_ahead_bytes,read_byte,read,write}, read_exact, write_all, start_at, size, the "
               "category walk (terminates: measure 0x10000 - word address; no overflow of the chain) and the find_string fragment (incl. the SAFETY condition of the unsafe "
-              "set_len: length <= capacity, carried as a precondition - rule R17) for arbitrary memory contents (Verus automatic obligations)",
+              "set_len: length <= capacity, carried as a precondition - rule R17), and the item loops pdos / fmmu_mappings / sync_managers (terminate: every item "
+              "consumes window bytes; capacity errors instead of panics; bit-length sum cannot overflow) for arbitrary memory contents (Verus automatic obligations)",
         note="provider contract assumed; the PDO bit-length sums of configuration.rs (iterator adapters) are not under contract",
     ),
 }
